@@ -119,7 +119,7 @@ func main() {
 		os, _ := execOp(&cl, fmt.Sprintf("qf %d", n))
 		run.Op(fmt.Sprintf("qf %d ;; %s", n, showOuts(os)), "ok")
 	}
-	for run.NOps < a.N {
+	for run.NOps < a.N && !run.Enough() {
 		if rng.Chance(1, 4) {
 			g.syncEpisode(&cl)
 		} else {
